@@ -309,6 +309,113 @@ theorem C14_only_complete_results {t : Topo} {s : State} (hs : Reach t s) :
   have hi := run_resInv ls init s resInv_init hr
   exact ⟨hi.cl, hi.tc, fun m b v hb hv => ⟨(hi.bx m b hb).2 v hv, (hi.bx m b hb).1⟩⟩
 
+/-! ### every exception class of a lost connection is the same event -/
+
+theorem Reach.step {t : Topo} {s s' : State} {l : Label} (hs : Reach t s) (h : step t s l = some s') :
+    Reach t s' := by
+  obtain ⟨ls, hrun⟩ := hs
+  refine ⟨ls ++ [l], ?_⟩
+  rw [run_append ls [l] init s hrun]
+  simp only [run]
+  rw [h]
+
+/-- **whatever `recv` raises on a lost connection, the reader reacts.**  `x` ranges over the
+documented failure classes of `multiprocessing.connection.Connection` (`ConnExc`: EOFError,
+ConnectionResetError, BrokenPipeError, ConnectionAbortedError, OSError('handle is closed'), a
+truncated frame); `react` records which `except` clause of the real code catches it where (tied to
+/repo by injecting every class at every site).  In every reachable state, for EVERY class `x`:
+(1) a running server / manager that reads the lost connection of an employee takes the step
+    `lostEmp p e x` and is `ShutDone` afterwards (soft classes: `handle_disconnect`; hard classes:
+    `handle_system_error` + `finally: handle_shutdown`);
+(2) a running manager that reads its lost upstream connection takes `lostUp n x` and is `ShutDone`;
+(3) a worker that reads its lost connection ends (`recv_incoming` catches every class);
+(4) whether a delivery is enabled never depends on the class, and a critical delivery stays
+    critical: the bounds `C14_bounded` / `C14_runtime_stops` (which quantify over all labels, hence
+    over all classes) and the progress statements apply to every class. -/
+theorem C14_connection_lost_any_class {t : Topo} (wf : t.WF) {s : State} (hs : Reach t s) (x : ConnExc) :
+    (∀ p e, s.loopOk t p = true → t.isChild p e = true → s.downOpen e = true → s.outbox e = [] →
+        (s.alive e && s.upOpen e) = false →
+        ∃ s', step t s (Label.lostEmp p e x) = some s' ∧ ShutDone t s' p ∧
+          (react .runRecv x = .disconnect ∨ react .runRecv x = .systemError)) ∧
+    (∀ n, s.loopOk t n = true → n ≠ 0 → s.upOpen n = true → s.inbox n = [] →
+        (s.alive (t.parent n) && s.downOpen n) = false →
+        ∃ s', step t s (Label.lostUp n x) = some s' ∧ ShutDone t s' n) ∧
+    (∀ w, isWorker t s w = true → s.inbox w = [] → (s.alive (t.parent w) && s.downOpen w) = false →
+        react .workerRecv x = .selfKill ∧ ∃ s', step t s (.wrecv w) = some s' ∧ s'.alive w = false) ∧
+    (∀ p e em d, (step t s (.recvEmp p e em x.hard)).isSome = (step t s (.recvEmp p e em false)).isSome ∧
+        isCrit t s d (.recvEmp p e em x.hard) = isCrit t s d (.recvEmp p e em false)) ∧
+    (∀ n em, (step t s (.recvUp n em x.hard)).isSome = (step t s (.recvUp n em false)).isSome ∧
+        isDownCrit t s (.recvUp n em x.hard) = isDownCrit t s (.recvUp n em false)) := by
+  have done : ∀ {s' : State} {l : Label} {p : Nat}, step t s l = some s' → s'.running p = false →
+      ShutDone t s' p := by
+    intro s' l p hst hr
+    obtain ⟨h1, h2, h3⟩ := down_facts ((hs.step hst).inv wf) hr
+    exact ⟨hr, h1, h2, h3⟩
+  refine ⟨fun p e hloop hch hdo hout heof => ?_, fun n hloop hn0 hup hin heof => ?_,
+    fun w hw hin heof => ⟨by cases x <;> rfl, ?_⟩, fun p e em d => ⟨?_, rfl⟩, fun n em => ⟨?_, rfl⟩⟩
+  · have hen : ∃ s', step t s (Label.lostEmp p e x) = some s' ∧ s'.running p = false := by
+      simp only [Label.lostEmp, step]
+      unfold recvEmp
+      simp only [hloop, hch, hdo, okEmits, List.all_nil, Bool.and_self, Bool.not_true, Bool.false_eq_true,
+        if_false, hout, heof]
+      split
+      · exact ⟨_, rfl, by simp [systemError, shutdownNode, finishShutdown, baseShutdown]⟩
+      split
+      · exact ⟨_, rfl, by simp [shutdownNode, finishShutdown, baseShutdown]⟩
+      split
+      · exact ⟨_, rfl, by simp [shutdownNode, finishShutdown, baseShutdown]⟩
+      · exact ⟨_, rfl, by simp [shutdownNode, finishShutdown, baseShutdown]⟩
+    obtain ⟨s', hst, hr⟩ := hen
+    exact ⟨s', hst, done hst hr, by cases x <;> simp [react]⟩
+  · have hn0' : (n != 0) = true := by simpa using hn0
+    have hen : ∃ s', step t s (Label.lostUp n x) = some s' ∧ s'.running n = false := by
+      simp only [Label.lostUp, step]
+      unfold recvUp
+      simp only [hloop, hn0', hup, okEmits, List.all_nil, Bool.and_self, Bool.not_true, Bool.false_eq_true,
+        if_false, hin, heof]
+      split
+      · exact ⟨_, rfl, by simp [systemError, shutdownNode, finishShutdown, baseShutdown]⟩
+      · exact ⟨_, rfl, by simp [shutdownNode, finishShutdown, baseShutdown]⟩
+    obtain ⟨s', hst, hr⟩ := hen
+    exact ⟨s', hst, done hst hr⟩
+  · simp only [step]
+    unfold wrecv
+    simp only [hw, Bool.not_true, Bool.false_eq_true, if_false, hin, heof]
+    exact ⟨_, rfl, by simp⟩
+  · simp only [step]
+    unfold recvEmp
+    split
+    · rfl
+    split
+    · split
+      · rfl
+      · cases x.hard <;> simp <;> (repeat' split) <;> rfl
+    · rename_i m rest _
+      cases m <;> simp only <;> (repeat' split) <;> rfl
+  · simp only [step]
+    unfold recvUp
+    split
+    · rfl
+    split
+    · split
+      · rfl
+      · cases x.hard <;> simp
+    · rename_i m rest _
+      cases m <;> simp only <;> (repeat' split) <;> rfl
+
+/-- the reaction table never says "ignored": at every site every class either stops the reader
+(disconnect / system error / worker exit / client exception) or only drops a message whose
+addressee is gone anyway (`dropped`: the sender still learns of the loss by its own `recv`). -/
+theorem C14_react_table (x : ConnExc) :
+    (react .runRecv x = .disconnect ∨ react .runRecv x = .systemError) ∧
+    react .workerRecv x = .selfKill ∧ react .workerSend x = .selfKill ∧
+    react .clientRecv x = .raises ∧ react .clientSend x = .raises ∧
+    react .outgoingSend x = .dropped ∧ react .shutdownSend x = .dropped ∧
+    react .managerUpSend x = .dropped ∧ react .unknownTaskSend x = .dropped ∧
+    react .sysErrClientSend x = .shutdownThenEscapes ∧
+    (x.hard = true ↔ react .runRecv x = .systemError) := by
+  cases x <;> simp [react, ConnExc.hard]
+
 /-! ### non-vacuity: a server, a manager, two workers, one client -/
 
 def demoTopo : Topo := Topo.ofList [(0, 0), (0, 1), (1, 2), (1, 2)] false
@@ -374,6 +481,23 @@ example : ((run demoTopo demoState [.recvEmp 1 2 [] false]).map
     (fun s => (s.running 1, s.gone 3, s.inbox 3))) = some (false, false, [.shutdown]) := by decide
 -- C14_second_crash: a second crash is possible in `demoDown`
 example : (step demoTopo demoDown (.crash 1 false)).isSome = true := by decide
+
+-- C14_connection_lost_any_class: in `demoState` (worker 2 killed) the manager's read of the lost connection is
+-- enabled for every class; a hard class takes the system-error path (ERROR + SHUTDOWN upstream), a soft one
+-- the disconnect path (SHUTDOWN upstream only); both leave the manager `ShutDone`
+example : demoState.loopOk demoTopo 1 = true ∧ demoTopo.isChild 1 2 = true ∧ demoState.downOpen 2 = true ∧
+    demoState.outbox 2 = [] ∧ (demoState.alive 2 && demoState.upOpen 2) = false := by decide
+example : ConnExc.all.map (fun x => ((step demoTopo demoState (Label.lostEmp 1 2 x)).map
+    (fun s => (s.running 1, s.outbox 1, s.sentShutdown 3)))) =
+    [some (false, [.shutdown], true), some (false, [.shutdown], true),
+     some (false, [.sysError, .shutdown], true), some (false, [.sysError, .shutdown], true),
+     some (false, [.sysError, .shutdown], true), some (false, [.sysError, .shutdown], true)] := by decide
+-- ... and a manager that loses its boss with a hard class (deepTopo, mid manager killed)
+example : ConnExc.all.map (fun x => ((step (Topo.ofList [(0, 0), (0, 1), (1, 1), (2, 2)] false)
+    ((run (Topo.ofList [(0, 0), (0, 1), (1, 1), (2, 2)] false) init [.crash 1 false]).getD init)
+    (Label.lostUp 2 x)).map (fun s => (s.running 2, s.sentShutdown 3)))) =
+    [some (false, true), some (false, true), some (false, true), some (false, true),
+     some (false, true), some (false, true)] := by decide
 
 -- C14_only_complete_results: a run in which the client does get its result (attached, one worker)
 def okRun : List Label :=
